@@ -36,6 +36,7 @@
 #include <vector>
 #include <iostream>
 #include <stdio.h>
+#include <string.h>
 
 using namespace MASA;
 
@@ -91,9 +92,10 @@ extern "C" int masa_select_mms(const char* function_user_wants)
 
 extern "C" int masa_get_name(char* name)
 {
-  std::string fuw(name);
-  masa_get_name<double>(&fuw);
-  return 0;
+  std::string fuw;
+  int err = masa_get_name<double>(&fuw);
+  strcpy(name,fuw.c_str());
+  return err;
 }
 
 extern "C" int masa_get_dimension(int* dim)
